@@ -259,8 +259,10 @@ class PersLandscapeExact(PersLandscape):
         # change A into a list
         A = list(A)
         # change inner nparrays into lists
+        # (as floats: the sweep adds and negates coordinates, which wraps
+        # around in a narrow integer dtype such as uint8)
         for i in range(len(A)):
-            A[i] = list(A[i])
+            A[i] = [float(x) for x in A[i]]
         if A[-1][1] == np.inf:
             A.pop(-1)
 
